@@ -32,7 +32,7 @@ SCOPE = ('a GymEnvironment wrapped directly around OuterEnv(GridWorld) whose inn
 BOUNDS = {
     'quick': dict(two_steps='two consecutive steps without reset (also after a terminal one): 1x3 over {Floor, Exit} with 8 actions; through the state wrapper 2x2 with 3 actions', worlds='1x2 over {Floor, Wall, Exit, Key(YELLOW), Door(LOCKED,YELLOW)} and 2x2 over {Floor, Key(YELLOW), Door(LOCKED,YELLOW)}, every pose, held none/Key; every operation preceded by a symbolic choice of earlier reads (none / observation / state / both) and followed by reads of both properties', view='1x3, fully transparent',
                   action_spaces='a permutation of all 8 actions and a 3-action subset; every index', representations='default, no-overlap, compact (state and observation)'),
-    'thorough': dict(worlds='plus 2x3', view='1x3 and 2x3', action_spaces='same', representations='same'),
+    'thorough': dict(worlds='plus 1x3 and 3x1 (2x3 exceeds the limit)', view='1x3 and 2x3', action_spaces='same', representations='same'),
 }
 OUTSIDE = ('gym.make(<registered id>) and GymEnvironment.seed: the installed gym is 0.26.2 while the repository requires gym<=0.21 (seeding.create_seed no longer exists; '
            'gym.make wraps environments in checkers expecting the 0.26 step/reset API); what a registered id resolves to (outer_env_factory on the packaged yaml) is exercised in C17')
@@ -198,14 +198,14 @@ def mk(H, W, actions, what, view=Shape(1, 3)):
 def obligations(tier):
     q = tier == 'quick'
     obs = []
-    worlds = [(1, 2), (2, 2)] if q else [(1, 2), (2, 2), (2, 3)]
+    worlds = [(1, 2), (2, 2)] if q else [(1, 2), (2, 2), (1, 3), (3, 1)]  # (2x3 exceeded the thorough limit in every variant: measured)
     for (H, W) in worlds:
         for aname, actions in (('perm8', PERM), ('subset3', SUBSET)):
             for what in ('step', 'reset'):
                 if q and what == 'step' and aname == 'perm8' and H * W >= 4:
                     continue  # the 8-action space is exercised on 1x2; 2x2 uses the 3-action subset
                 obs.append(Obligation(f'{what}-{aname}-{H}x{W}', mk(H, W, actions, what), dict(what=what, actions=[a.name for a in actions], H=H, W=W)))
-    for (H, W) in [(2, 2)] + ([] if q else [(2, 3)]):  # the state representation needs height, width >= 2
+    for (H, W) in [(2, 2)]:  # the state representation needs height, width >= 2 (2x3 exceeded the thorough limit)
         for what in ('wrapper-step', 'wrapper-reset', 'switch', 'switch-sequence'):
             acts, an = (SUBSET, 'subset3') if (q and what == 'wrapper-step') else (PERM, 'perm8')
             obs.append(Obligation(f'{what}-{an}-{H}x{W}', mk(H, W, acts, what), dict(what=what, H=H, W=W, actions=an)))
